@@ -124,7 +124,9 @@ CreateTx(ls, op, txid, logid) ==
       ts == IF op.ts = 0 THEN op.now ELSE op.ts
       t0 == [id |-> txid, ps |-> ps, ts |-> ts, ins |-> op.now, ref |-> op.ref, meta |-> Merge(ScriptMeta(op), op.meta),
              rev |-> FALSE, revAt |-> 0, reverts |-> 0, pcv |-> PCV(AllPs(ls.txs) \o ps, ps)]
-  IN IF Len(ps) = 0 THEN Fail(ls, "no_postings")
+  IN IF "vard" \in DOMAIN op /\ op.vard # "" /\ ~op.varok
+     THEN Fail(ls, "compile")   \* an account variable whose value is not a well-formed address: refused before anything runs (C28)
+     ELSE IF Len(ps) = 0 THEN Fail(ls, "no_postings")
      ELSE IF ~FundsOK(AllPs(ls.txs), op.ps, 1) THEN Fail(ls, "insufficient")
      ELSE IF \E k \in (DOMAIN ScriptMeta(op)) \cap (DOMAIN op.meta) : ScriptMeta(op)[k] # "" THEN Fail(ls, "meta_override")
      ELSE IF op.ref # "" /\ \E i \in DOMAIN ls.txs : ls.txs[i].ref = op.ref THEN Fail(ls, "ref_conflict")
